@@ -41,6 +41,7 @@ type verifSlicer struct {
 	interfered bool
 	failed     bool
 	slices     []slicing.BlobSlice
+	child      *verifSource // backs the child buffer handed back to the store (counts Close calls)
 }
 
 // Slice consumes the parent, and - being called without the store's lock held,
@@ -65,7 +66,10 @@ func (s *verifSlicer) Slice(b buffer.Buffer, childDigest digest.Digest) (buffer.
 		{Digest: verifSiblingDigest, OffsetBytes: 0, SizeBytes: 1},
 		{Digest: childDigest, OffsetBytes: 1, SizeBytes: 1},
 	}
-	return buffer.NewValidatedBufferFromByteSlice(data[1:2]), s.slices
+	// The child is handed back as a stream-backed buffer, so that the store's
+	// obligation to consume or discard it exactly once is observable.
+	s.child = &verifSource{data: append([]byte(nil), data[1:2]...)}
+	return buffer.NewCASBufferFromReader(childDigest, s.child, buffer.UserProvided), s.slices
 }
 
 func verifScenarioFlatComposite() {
@@ -82,6 +86,10 @@ func verifScenarioFlatComposite() {
 	childKey := f.ba.getKey(verifChildDigest)
 	siblingKey := f.ba.getKey(verifSiblingDigest)
 	verifAllClosedOnce(f.lbm)
+	if sl.child != nil {
+		vnd.Cover("composite-child-from-slicer")
+		vnd.Assert(sl.child.closes == 1, "the child buffer returned by the slicer was not consumed or discarded exactly once")
+	}
 	for _, ok := range f.lbm.integrity {
 		vnd.Assert(ok, "integrity callback reported corruption on an uncorrupted medium")
 	}
